@@ -136,6 +136,34 @@ def _canonical(term, bound_ids):
     return canon, order, phs
 
 
+def size_key(e, sizes):
+    """key for a tuple of sizes: symbolic sizes that are provably equal under the path condition share one key"""
+    known = getattr(e, "_known_sizes", None)
+    if known is None or getattr(e, "_known_sizes_path", None) != e.path_id:
+        known = e._known_sizes = []
+        e._known_sizes_path = e.path_id
+    out = []
+    for x in sizes:
+        if smt.is_conc(x):
+            out.append(x)
+            continue
+        found = None
+        for k in known:
+            if k.get_id() == x.get_id():
+                found = k
+                break
+        if found is None:
+            for k in known:
+                if k.sort() == x.sort() and e.holds(k == x, timeout_ms=2000):
+                    found = k
+                    break
+        if found is None:
+            known.append(x)
+            found = x
+        out.append(("z", found.get_id()))
+    return tuple(out)
+
+
 def interner(e):
     it = getattr(e, "_interner", None)
     if it is None or getattr(e, "_interner_path", None) != e.path_id:
@@ -180,7 +208,7 @@ def linear_apply(opname, opparams, A, t_axes, family, out_extra):
                 p = poly._atom(t)
         parts = poly.split(p, bv_ids)
         it = interner(e)
-        keyparams = tuple(x if smt.is_conc(x) else ("z", x.get_id()) for x in sizes + tuple(opparams))
+        keyparams = size_key(e, sizes + tuple(opparams))
         acc = 0
         for core in sorted(parts):
             coefp = parts[core]
@@ -319,7 +347,7 @@ def aggregate_apply(opname, A, t_axes):
             t = smt.zr(smt.R(values.coerce(A.at_(tuple(full)), "real")))
         t = z3.simplify(t)
         sizes = tuple(dim_term(A.shape[ax]) for ax in t_axes)
-        keyparams = tuple(x if smt.is_conc(x) else ("z", x.get_id()) for x in sizes)
+        keyparams = size_key(e, sizes)
         app = interner(e).get((opname, keyparams), t, bv, 0, e)
         val = app(())
         AGG_TERMS[val.get_id()] = (opname, val, t, bv, [dim_term(A.shape[ax]) for ax in t_axes])
@@ -349,7 +377,7 @@ def opaque_apply(opname, A, extra_key=()):
             t = PAIR(smt.zr(el.re), smt.zr(el.im))
         else:
             t = smt.zr(smt.R(el))
-        keyparams = tuple(x if smt.is_conc(x) else ("z", x.get_id()) for x in sizes) + tuple(extra_key)
+        keyparams = size_key(e, sizes) + tuple(extra_key)
         app = interner(e).get((opname, keyparams), t, bv, len(out_idx), e)
         return app(out_idx)
     return g
@@ -413,7 +441,10 @@ def repeat(a, repeats, axis=None):
 
     def fn(idx):
         j = idx[axis]
-        q = smt.rfloordiv(j, rt) if not (isinstance(j, int) and isinstance(rt, int)) else j // rt
+        if values.is_one(A.shape[axis]):
+            q = 0  # every output entry along the axis is a copy of the single input entry
+        else:
+            q = smt.rfloordiv(j, rt) if not (isinstance(j, int) and isinstance(rt, int)) else j // rt
         return A.at_(idx[:axis] + (q,) + idx[axis + 1:])
     return SArr(shape, fn, A.kind)
 
